@@ -25,6 +25,46 @@ OBLIGATIONS = [
      "title": "sm9_do_decrypt accepts only if all 32 bytes of C3 equal HMAC(K2, C2); M = C2 xor K1", "bounds": "C2 of 5 bytes, all contents",
      "stubs": ["sm9_kem_decrypt: arbitrary key material / verdict", "sm3_hmac_*: ideal MAC probe"]},
 ]
+SP_RM = ["sm9_z256_modp_add", "sm9_z256_modp_sub", "sm9_z256_modp_dbl", "sm9_z256_modp_tri", "sm9_z256_modp_neg", "sm9_z256_modp_haf", "sm9_z256_modp_mont_mul", "sm9_z256_modp_mont_inv"]
+FP2_RM = ["sm9_z256_fp2_mul", "sm9_z256_fp2_sqr", "sm9_z256_fp2_mul_u", "sm9_z256_fp2_sqr_u", "sm9_z256_fp2_a_mul_u", "sm9_z256_fp2_inv"]
+FP4_RM = ["sm9_z256_fp4_mul", "sm9_z256_fp4_sqr", "sm9_z256_fp4_mul_v", "sm9_z256_fp4_sqr_v", "sm9_z256_fp4_a_mul_v", "sm9_z256_fp4_inv"]
+SP_STUB = "mod-p layer (add, sub, dbl, tri, neg, haf, mont_mul, mont_inv) instantiated over F_%d with Montgomery radix 2 (models/sm9_smallp.c, include/smallf.h); Montgomery constants of the unit rewritten accordingly"
+def tower(name, entry, title, pf=13, defs=(), ring=None, **kw):
+    """ring: None = real tower down to the mod-p layer; 'fp2' / 'fp4' = the layer below instantiated by the base ring F_pf (harness/C17/tower_ring.c)"""
+    d = {"id": "C17.tower.%s.p%d" % (name, pf), "harness": "harness/C17/tower_ring.c" if ring else "harness/C17/tower.c", "entry": entry, "units": ["sm9_z256.c"],
+         "models": ["models/sm9_smallp.c"], "remove": {"sm9_z256.c": RM + SP_RM + {None: [], "fp2": FP2_RM, "fp4": FP4_RM}[ring]}, "unit_defs": {"sm9_z256.c": ["-Dstatic="]},
+         "defs": ["-DPF=%d" % pf] + list(defs), "unwind": 8, "timeout": 900, "title": title, "backends": ["cadical", "kissat"],
+         "bounds": ("field F_%d (M4''), all operands" % pf) if not ring else
+                   ("the layer below (%s) instantiated by the ring F_%d with the adjoined element mapped to every constant c of F_%d; all operands" % ("Fp2" if ring == "fp2" else "Fp4", pf, pf)),
+         "stubs": [SP_STUB % pf] + ([] if not ring else ["multiplicative functions of the layer below (%s) are the base ring's (harness/C17/tower_ring.c)" % ", ".join(FP2_RM if ring == "fp2" else FP4_RM)])}
+    d.update(kw)
+    return d
+G1 = ((0, "g1_dbl_xy", "G1 dbl, neg, get_xy, is_on_curve, equ, is_at_infinity"), (1, "g1_add", "G1 point_add = group law (incl. P = Q, P = -Q, infinity)"), (2, "g1_sub", "G1 point_sub"),
+      (3, "g1_add_affine", "G1 add_affine / sub_affine for P != +-Q"), (4, "g1_on_curve", "G1 is_on_curve exact"))
+G2 = ((0, "g2_dbl_xy", "G2 twist dbl, neg, get_xy, is_on_curve, is_at_infinity"), (1, "g2_add_full", "G2 twist_point_add_full = group law (incl. P = Q, P = -Q, infinity)"),
+      (2, "g2_add_mixed", "G2 twist_point_add (affine second operand) = group law"), (3, "g2_sub", "G2 twist_point_sub"), (4, "g2_equ_on_curve", "G2 equ and is_on_curve exact"))
+for pf in (5, 7, 13):
+    q = "quick" if pf == 7 else "thorough"
+    OBLIGATIONS += [
+        tower("fp2_ring", "h_fp2_ring", "Fp2 add/sub/neg/dbl/tri/haf/mul/mul_u/mul_fp/sqr/sqr_u/conjugate/a_mul_u, predicates, in place = arithmetic in Fp[u]/(u^2+2)", pf, tier=q),
+        tower("fp2_inv", "h_fp2_inv", "Fp2 inv (three branches) and div", pf, tier="quick" if pf in (7, 13) else "thorough"),
+        tower("fp4_over_ring", "h_fp4_over_ring", "Fp4 mul/mul_v/sqr/sqr_v/a_mul_v/inv (also in place) = arithmetic in R[v]/(v^2-u) for the base ring R", pf, ["-DLEVEL=2"], ring="fp2", tier="quick" if pf in (7, 13) else "thorough"),
+        tower("fp4_linear", "h_fp4_ring", "Fp4 add/sub/neg/dbl/haf/mul_fp/mul_fp2/conjugate/a_mul_v, predicates (real Fp2 below)", pf, ["-DPART=2"], tier="thorough"),
+    ]
+    for part, nm, ti in ((0, "fp12_mul", "Fp12 mul (also in place) = product in R[w]/(w^3-v)"), (1, "fp12_sqr_linear", "Fp12 sqr, add, sub, neg, equ, set_one"), (2, "fp12_inv", "Fp12 inv, both branches")):
+        OBLIGATIONS.append(tower(nm, "h_fp12_over_ring", ti + " for the base ring R", pf, ["-DLEVEL=3", "-DPART=%d" % part], ring="fp4", tier=q))
+    for part, nm, ti in G1:
+        OBLIGATIONS.append(tower(nm, "h_g1", ti + " on every curve y^2 = x^3 + b over F_%d" % pf, pf, ["-DPART=%d" % part], tier=q))
+    for part, nm, ti in G2:
+        OBLIGATIONS.append(tower(nm + "_over_field", "h_g2_over_field", ti + " on every curve y^2 = x^3 + b over the base field", pf, ["-DLEVEL=22", "-DPART=%d" % part], ring="fp2", tier=q))
+# the real Fp4 on the real Fp2, and the real twist formulas on the real Fp2, at the smallest field (the SAT search is close to exhaustive in the operands: 5^8 and more)
+OBLIGATIONS += [
+    tower("fp4_mul", "h_fp4_ring", "Fp4 mul on the real Fp2 = product in Fp2[v]/(v^2-u)", 5, ["-DPART=0"], tier="thorough", timeout=1800),
+    tower("fp4_sqr_mulv", "h_fp4_ring", "Fp4 mul_v, sqr, sqr_v on the real Fp2", 5, ["-DPART=1"], tier="thorough", timeout=1800),
+    tower("fp4_inv", "h_fp4_inv", "Fp4 inv on the real Fp2", 5, tier="thorough"),
+    tower("g2_dbl_xy", "h_g2", "G2 twist dbl, neg, get_xy, is_on_curve on the real Fp2, every curve over F_25", 5, ["-DPART=0"], tier="thorough", timeout=1800),
+    tower("g2_equ_on_curve", "h_g2", "G2 equ / is_on_curve exact on the real Fp2, every curve over F_25", 5, ["-DPART=4"], tier="thorough", timeout=1800),
+]
 NOTE = ("C17: SM9. Decided here: the 256-bit limb layer and Fp add/sub/neg/dbl/tri/haf at full width, and the MAC-then-decrypt control flow. "
         "NOT decided (declared outside the claim): bilinearity / non-degeneracy of the R-ate pairing, the Fp2/Fp4/Fp12 tower and G1/G2 formulas, "
         "the 256-bit multiplier and Montgomery reduction (no solver verdict within reach, see DESIGN.md).")
